@@ -26,6 +26,9 @@ class Lab:
         rng = self.rng
         self.trees.reset()
         self.names = names or rng.sample(TREE_NAMES, rng.randint(2, 4))
+        if names is None and rng.random() < 0.35:
+            # a name and the same name behind the file-name separator (x_rig / rig): ambiguous in '_' joined file names
+            self.names = sorted(set(self.names[:2]) | {"rig", "x_rig"})
         self.ents = ents if ents is not None else universe.gen_universe(
             rng, self.model, self.vocab, n_leaves=n_leaves or rng.choice([8, 20, 40]), names=self.names)
         self.exists = self.trees.materialise(self.ents)
